@@ -1,5 +1,6 @@
 import MakoModel.Basic.Wire
 import MakoModel.Filters.Model
+import MakoModel.Filters.Sites
 /-! Driver handler for the filter models: `filt <fn> <args…>`.  Bytes travel as strings of code points < 256. -/
 namespace MakoModel.Filters.Drv
 open MakoModel.Wire MakoModel.Filters
@@ -41,7 +42,18 @@ def encDecodeOut : DecodeOut → Option String
   | .result r => some (encOpt encStr r)
   | .badIndex => some "badindex"
 
+def filterByName (n : String) : Option (List Char → List Char) :=
+  match n with
+  | "x" => some xmlEscape | "h" => some htmlEscape | "u" => some urlEscape | "entity" => some entityEscape
+  | "trim" => some trim | "id" => some id | _ => none
+
 def handle : Handler
+  | ["site", b, fi, c, fname, bufname, body] => do
+      -- `<%def/%block filter=fname buffered=b cached=c>` under buffer_filters=[bufname]: first render, cache hit
+      let b ← decBool b; let fi ← decBool fi; let c ← decBool c
+      let f ← filterByName fname; let bufF ← filterByName bufname; let body ← decStr body
+      let r := Sites.renderTwice (.defLike ⟨b, fi, c⟩) f bufF body
+      pure (encStr r.1 ++ " " ++ encStr r.2)
   | "decodeseq" :: ops => do
       let ops ← decOps ops
       let outs := (decodeRun driverCodec [] ops).2.filterMap encDecodeOut
